@@ -171,6 +171,9 @@ func (vc *FnVC) globalAddr(g *ssa.Global) *Val {
 
 func (vc *FnVC) addrOf(st *State, p *Val) *Addr {
 	if p.Addr != nil {
+		if p.Addr.Kind == "structarr" {
+			return nil
+		}
 		return p.Addr
 	}
 	pt, ok := p.T.Underlying().(*types.Pointer)
@@ -201,9 +204,25 @@ func (vc *FnVC) loadAddr(st *State, a *Addr) string {
 	panic("loadAddr kind " + a.Kind)
 }
 
+// trackWrite records (for `pins` clauses) that field key was assigned at object obj.
+func (vc *FnVC) trackWrite(st *State, key, obj string) {
+	if vc.unit == nil || len(vc.unit.Pins) == 0 {
+		return
+	}
+	wk := "W!" + key
+	if vc.keys[wk] == nil {
+		vc.key(wk, "(Array Int Bool)", "ghost")
+		vc.fact(sx("=", entrySym(wk), "((as const (Array Int Bool)) false)"))
+	}
+	vc.set(st, wk, sx("store", vc.get(st, wk), obj, "true"))
+}
+
 func (vc *FnVC) storeAddr(st *State, a *Addr, v string) {
 	switch a.Kind {
 	case "field", "cell":
+		if a.Kind == "field" {
+			vc.trackWrite(st, a.Key, a.Obj)
+		}
 		vc.set(st, a.Key, sx("store", vc.get(st, a.Key), a.Obj, v))
 	case "elem":
 		m := vc.get(st, a.Key)
@@ -265,6 +284,7 @@ func (vc *FnVC) storeStruct(st *State, t types.Type, ref string, v *Val) {
 			continue
 		}
 		k := vc.fieldKey(t, f)
+		vc.trackWrite(st, k.Name, ref)
 		vc.set(st, k.Name, sx("store", vc.get(st, k.Name), ref, fv.S))
 	}
 }
@@ -712,9 +732,10 @@ func (vc *FnVC) typeAssert(st *State, in *ssa.TypeAssert) *Val {
 		// dynamic type implements interface: uninterpreted predicate on the tag; nil never does
 		p := "impl!" + sanitize(typeName(at))
 		vc.declareFun(p, []string{"Int"}, "Bool")
-		for _, tg := range vc.G.tagsImplementing(at) {
-			vc.fact(sx(p, fmt.Sprint(tg)))
+		if vc.implPreds == nil {
+			vc.implPreds = map[string]types.Type{}
 		}
+		vc.implPreds[p] = at // facts for every known tag are emitted when the unit is finished
 		ok = smtAnd(smtNot(sx("=", sx("i.tag", x.S), "0")), sx(p, sx("i.tag", x.S)))
 		if types.Implements(in.X.Type(), at.Underlying().(*types.Interface)) {
 			ok = smtNot(sx("=", sx("i.tag", x.S), "0"))
